@@ -1807,23 +1807,43 @@ namespace igris
             auto newbuf = m_alloc.allocate(sz);
             assert((uintptr_t)newbuf % sizeof(uintptr_t) == 0);
 
-            m_capacity = sz;
             if (m_data == nullptr)
             {
                 m_data = newbuf;
+                m_capacity = sz;
                 return 1;
             }
 
+            // If a move constructor throws, the new block (and what was
+            // already built in it) is given back and the old one is kept.
+            struct newbuf_guard
+            {
+                Allocator &alloc;
+                T *buf;
+                T *cur;
+                size_t n;
+                ~newbuf_guard()
+                {
+                    if (buf)
+                    {
+                        igris::array_destructor(buf, cur);
+                        alloc.deallocate(buf, n);
+                    }
+                }
+            } guard{m_alloc, newbuf, newbuf, sz};
+
             auto ie = end();
 
-            for (auto ip = begin(), op = newbuf; ip != ie; op++, ip++)
+            for (auto ip = begin(); ip != ie; guard.cur++, ip++)
             {
-                igris::move_constructor(op, igris::move(*ip));
+                igris::move_constructor(guard.cur, igris::move(*ip));
             }
 
+            guard.buf = nullptr;
             igris::array_destructor(begin(), end());
             auto oldbuf = m_data;
             m_data = newbuf;
+            m_capacity = sz;
             m_alloc.deallocate(oldbuf, oldcapacity);
             return 1;
         }
